@@ -633,11 +633,17 @@ def rule_formatters(run, prog):
                     bad = bad or f"{posixpath.basename(str(n))}: diagnostics shown as {got}, file.errors hands out {want}"
         run.ob("R-8.5", f"{m.key}::errors-by-iteration", bad is None,
                f"formatter obtains the diagnostics other than by plain iteration of file.errors (sorted/filtered/indexed view): {bad}", m.node)
-    # _inner is private
+    # the unsorted container is private: its attribute name is taken from an interpreted Errors() (it may be renamed)
     outside = []
+    try:
+        probe = FormatterBench(prog).ev.instantiate("Errors", [], {})
+        inner_names = {k for k, v in probe.__dict__.items() if isinstance(v, list)} or {"_inner"}
+    except (Raised, Unsupported):
+        inner_names = {"_inner"}
     for fn in prog.fns:
         for n in walk_fn(fn.node):
-            if isinstance(n, ast.Attribute) and n.attr == "_inner" and not (fn.cls is not None and fn.cls.name == "Errors"):
+            if isinstance(n, ast.Attribute) and n.attr in inner_names and not (fn.cls is not None and fn.cls.name == "Errors") \
+                    and (n.attr.startswith("_") or "errors" in text(n.value)):
                 outside.append((fn, n))
     run.ob("R-8.5", "errors.py::Errors::_inner-private", not outside,
            "Errors._inner (the unsorted list) is read outside class Errors: " + ", ".join(f.key for f, _ in outside[:3]),
@@ -727,6 +733,8 @@ def rule_prints(run, prog):
     run.rule("R-8.6", "stdout discipline: every print outside __main__ is unreachable when the debug level is 0 (CFG "
              "reachability with the outcomes of pure debug-level tests fixed at debug == 0)", floor=8)
     n_prints = 0
+    from .c16 import discover_flags
+    discover_flags(prog)                      # the name of the Context attribute holding the -d level
     for fn in prog.fns:
         if fn.mod.rel == "__main__.py":
             continue
